@@ -385,7 +385,7 @@ class _AsyncResult:
         self.done = True
         self.pool.completion_order.append(self.tid)
         try:
-            if self.pool.fault is not None and self.pool.fault(self):
+            if self.pool.fault is not None and self.pool.fault(self):      # may itself raise the fault
                 raise InjectedFault("injected fault in task %d" % self.tid)
             self.value = self.fn(*self.args, **self.kwds)
         except core.PathAbort:
@@ -410,6 +410,12 @@ class _AsyncResult:
         self.pool._drive(self)
 
     def ready(self):
+        # a task that has been submitted may have finished at any time: under the symbolic
+        # schedule each poll of a pending task forks on "it has completed by now"
+        if not self.done and StubPool.schedule == 'symbolic':
+            c = core.ctx()
+            if bool(c.bool(c.fresh_name('ready'))):
+                self._complete()
         return self.done
 
     def successful(self):
